@@ -72,7 +72,7 @@ def run_counting(cfg, devs, t_end, stim):
                 # included), and the entries of every container the schedulers / tickers / components hold as attributes
                 gc.collect()
                 res["task_objects"] = sum(1 for o in gc.get_objects() if isinstance(o, asyncio.Task))
-                res["bookkeeping"] = bookkeeping([counts["sched"]] + list(slevel.REG.values()))
+                res["bookkeeping"] = bookkeeping([counts["sched"]] + list(slevel.REG.values())) + cache_entries()
         return hook
 
     def on_start2(loop, sched):
@@ -88,6 +88,27 @@ def run_counting(cfg, devs, t_end, stim):
     res["ticks"] = len(r["mticks"])
     res["error"] = r["error"] or (r["errors"][:1] or None)
     return res
+
+
+def cache_entries():
+    """entries held by memoising wrappers (functools.lru_cache / cache) on the functions and methods of tickit's modules"""
+    import sys
+    total, seen = 0, set()
+    for name, mod in list(sys.modules.items()):
+        if not name.startswith("tickit.") or mod is None:
+            continue
+        for obj in list(vars(mod).values()):
+            cands = [obj] + (list(vars(obj).values()) if isinstance(obj, type) and getattr(obj, "__module__", "").startswith("tickit.") else [])
+            for f in cands:
+                f = getattr(f, "__func__", f)
+                info = getattr(f, "cache_info", None)
+                if callable(info) and id(f) not in seen:
+                    seen.add(id(f))
+                    try:
+                        total += info().currsize
+                    except Exception:  # noqa
+                        pass
+    return total
 
 
 def bookkeeping(roots):
